@@ -35,11 +35,14 @@ pub struct OpSpec {
     /// (with `separate_header_message`) the header part carries the SAME name as the body part,
     /// each in its own message
     pub header_part_named_like_body_part: bool,
+    /// header part names in an order that is NOT alphabetical (`trace`, `zone`, `auth`), one of them
+    /// sorting before the body part's name
+    pub unsorted_header_names: bool,
 }
 
 impl OpSpec {
     pub fn simple(name: &str) -> OpSpec {
-        OpSpec { name: name.into(), output: true, in_headers: 0, out_headers: 0, explicit_parts: false, action: true, part_named_as_element: false, imported_ns: false, headers_without_parts: false, mixed_header_ns: false, overlapping_part_names: false, shadow_elements: false, early_header_names: false, separate_header_message: false, header_part_named_like_body_part: false }
+        OpSpec { name: name.into(), output: true, in_headers: 0, out_headers: 0, explicit_parts: false, action: true, part_named_as_element: false, imported_ns: false, headers_without_parts: false, mixed_header_ns: false, overlapping_part_names: false, shadow_elements: false, early_header_names: false, separate_header_message: false, header_part_named_like_body_part: false, unsorted_header_names: false }
     }
     pub fn label(&self) -> String {
         format!(
@@ -104,7 +107,7 @@ fn add_op(s: &mut SchemaSet, o: &OpSpec) {
         } else {
             new_elems.push(anon_element(&hn, vec![el("Token", TypeRef::b("string"))]));
         }
-        let pn = if o.header_part_named_like_body_part && i == 0 { pname(&req_el) } else if o.part_named_as_element { hn.clone() } else if o.overlapping_part_names { format!("payloadHeader{i}") } else if o.early_header_names { format!("audit{i}") } else { format!("hdr{i}") };
+        let pn = if o.unsorted_header_names { ["trace", "zone", "auth"][i % 3].to_string() } else if o.header_part_named_like_body_part && i == 0 { pname(&req_el) } else if o.part_named_as_element { hn.clone() } else if o.overlapping_part_names { format!("payloadHeader{i}") } else if o.early_header_names { format!("audit{i}") } else { format!("hdr{i}") };
         if o.separate_header_message {
             in_header_parts.push(Part { name: pn.clone(), element: QName::new(&hns, &hn) });
             in_h.push((format!("{name}Headers"), pn));
@@ -123,7 +126,7 @@ fn add_op(s: &mut SchemaSet, o: &OpSpec) {
         for i in 0..o.out_headers {
             let hn = format!("{name}RespHdr{i}");
             new_elems.push(anon_element(&hn, vec![el("Info", TypeRef::b("string"))]));
-            let pn = if o.header_part_named_like_body_part && i == 0 { pname(&resp_el) } else if o.part_named_as_element { hn.clone() } else if o.overlapping_part_names { format!("payloadHeader{i}") } else if o.early_header_names { format!("audit{i}") } else { format!("rhdr{i}") };
+            let pn = if o.unsorted_header_names { ["trace", "zone", "auth"][i % 3].to_string() } else if o.header_part_named_like_body_part && i == 0 { pname(&resp_el) } else if o.part_named_as_element { hn.clone() } else if o.overlapping_part_names { format!("payloadHeader{i}") } else if o.early_header_names { format!("audit{i}") } else { format!("rhdr{i}") };
             if o.separate_header_message {
                 out_header_parts.push(Part { name: pn.clone(), element: QName::new(&ens, &hn) });
                 out_h.push((format!("{name}RespHeaders"), pn));
@@ -223,6 +226,12 @@ pub fn wsdl_states(depth2: bool) -> Vec<State> {
         o.headers_without_parts = true;
         o.early_header_names = true;
     })));
+    prods.push(("three-headers-bound-in-non-alphabetical-order-parts-absent".into(), Box::new(|o: &mut OpSpec| {
+        o.in_headers = 3;
+        o.out_headers = 2;
+        o.headers_without_parts = true;
+        o.unsorted_header_names = true;
+    })));
     prods.push(("headers-in-a-message-of-their-own".into(), Box::new(|o: &mut OpSpec| {
         o.in_headers = 2;
         o.out_headers = 1;
@@ -278,7 +287,7 @@ pub fn wsdl_states(depth2: bool) -> Vec<State> {
     for (st, n) in [("camel", "thingService"), ("snake", "thing_service"), ("kebab", "thing-service"), ("upper", "THING_SERVICE")] {
         specs.push((format!("service-name-style={st}"), vec![base.clone()], n.into(), addr.into()));
     }
-    for (l, a) in [("address-with-path-and-query", "http://127.0.0.1:9/a/b?x=1&y=2"), ("address-with-port", "http://localhost:8080/svc"), ("address-https", "https://example.invalid/svc")] {
+    for (l, a) in [("address-with-path-and-query", "http://127.0.0.1:9/a/b?x=1&y=2"), ("address-with-port", "http://localhost:8080/svc"), ("address-https", "https://example.invalid/svc"), ("address-path-ending-in-a-slash", "http://127.0.0.1:9/shop/orders/")] {
         specs.push((l.into(), vec![base.clone()], svc.into(), a.into()));
     }
     let mut out: Vec<State> = specs.iter().map(|(l, ops, s, a)| State { label: format!("wsdl {l}"), depth: if l == "seed" { 0 } else { 1 }, set: wsdl_with(ops, s, a) }).collect();
